@@ -82,7 +82,10 @@ def summarize(eng, leaves):
                     ent = writes[e.addr] = [set(), False, e.size]
                 if ent[2] != e.size:
                     raise Unsupported('mixed-size writes to %#x' % e.addr)
-                if isinstance(e.wval, int):
+                if e.kind == 'U' and isinstance(e.info, tuple) and e.info[0] in ('add', 'sub'):
+                    # a counter: its values depend on how many times it is bumped, no finite domain is attempted
+                    ent[1] = True
+                elif isinstance(e.wval, int):
                     ent[0].add(e.wval)
                 else:
                     vals = feasible_values(eng, e)
@@ -190,7 +193,7 @@ def run_conc(sess, spec, loop_bound=6, max_rounds=8, timeout_s=600, max_spurious
                 if a in widened:
                     ent[1] = True
                     ent[0] = set()
-                elif rounds >= 3 and a in summ[i] and not ent[1] and len(ent[0]) > len(summ[i][a][0]) and len(ent[0]) > 6:
+                elif rounds >= 3 and a in summ[i] and not ent[1] and len(ent[0]) > len(summ[i][a][0]) and len(ent[0]) > 40:
                     widened.add(a)
                     ent[1] = True
                     ent[0] = set()
